@@ -131,7 +131,6 @@ pub fn build(sc: &Scen) -> Built {
 				items.push(Item::L(leaf_at(it.s)));
 			}
 		}
-		let unchecked = co.ctor == "unchecked";
 		let obj = if !ok {
 			CollObj::Invalid
 		} else {
@@ -145,10 +144,13 @@ pub fn build(sc: &Scen) -> Built {
 					_ => panic!("owned over a non-unit"),
 				},
 				"boxed" => {
-					let c = if unchecked {
-						Some(unsafe { Boxed::new_unchecked(items) })
-					} else {
-						Boxed::try_new(items)
+					let c = match co.ctor.as_str() {
+						"unchecked" => Some(unsafe { Boxed::new_unchecked(items) }),
+						// the scenario generator only uses the unchecked-by-ownership constructors on duplicate-free lists
+						"new" => Some(Boxed::new(items)),
+						"from" => Some(Boxed::from(items)),
+						"from_iter" => Some(items.into_iter().collect::<Boxed>()),
+						_ => Boxed::try_new(items),
 					};
 					match c {
 						Some(c) => CollObj::Boxed(leak(&mut cleanup, c)),
@@ -157,10 +159,11 @@ pub fn build(sc: &Scen) -> Built {
 				}
 				"ref" => {
 					let v: &'static Vec<Item> = leak(&mut cleanup, items);
-					let c = if unchecked {
-						Some(unsafe { RefC::new_unchecked(v) })
-					} else {
-						RefC::try_new(v)
+					let c = match co.ctor.as_str() {
+						"unchecked" => Some(unsafe { RefC::new_unchecked(v) }),
+						"new" => Some(RefC::new(v)),
+						"from" => Some(RefC::from(v)),
+						_ => RefC::try_new(v),
 					};
 					match c {
 						Some(c) => CollObj::Ref(leak(&mut cleanup, c)),
@@ -168,10 +171,12 @@ pub fn build(sc: &Scen) -> Built {
 					}
 				}
 				"retry" => {
-					let c = if unchecked {
-						Some(unsafe { Retry::new_unchecked(items) })
-					} else {
-						Retry::try_new(items)
+					let c = match co.ctor.as_str() {
+						"unchecked" => Some(unsafe { Retry::new_unchecked(items) }),
+						"new" => Some(Retry::new(items)),
+						"from" => Some(Retry::from(items)),
+						"from_iter" => Some(items.into_iter().collect::<Retry>()),
+						_ => Retry::try_new(items),
 					};
 					match c {
 						Some(c) => CollObj::Retry(leak(&mut cleanup, c)),
